@@ -569,6 +569,27 @@ pub fn table() -> Vec<Spec> {
             s.argsel = vec![("store", vec![])];
             t.push(s);
         }
+        // w1e: ONE iteration of the element loops of VolatileArrayRef::{copy_to, copy_from}: one volatile access at the element
+        // pointer, then the pointer advances by ONE element (`ptr` counts elements of Packed<T>)
+        let mut s = vk("va_copy_to_elem", "copy_to", Loc::Impl { ty: "VolatileArrayRef", tr: None, f: "copy_to" });
+        s.canon_params = vec!["buf"];
+        s.drop_params = vec!["buf"];
+        s.loop_idx = Some(0);
+        s.vars = vec![("v", Ty::Unit)];
+        s.state = vec![ex("#0", "ptr", Ty::Ptr)];
+        s.effects = vec!["read_volatile"];
+        s.step = Some(("N", "unit"));
+        t.push(s);
+        let mut s = vk("va_copy_from_elem", "copy_from", Loc::Impl { ty: "VolatileArrayRef", tr: None, f: "copy_from" });
+        s.canon_params = vec!["buf"];
+        s.drop_params = vec!["buf"];
+        s.loop_idx = Some(0);
+        s.vars = vec![("v", Ty::Unit)];
+        s.state = vec![ex("ptr", "ptr", Ty::Ptr)];
+        s.effects = vec!["write_volatile"];
+        s.argsel = vec![("write_volatile", vec![0])];
+        s.step = Some(("N", "unit"));
+        t.push(s);
         // w1e: the pointer-guard getters only BUILD the guard (mapping handle, address, length): no mark_dirty, no other call
         for (ty, tag, len_pat) in [("VolatileSlice", "vs", "self . len ()"), ("VolatileRef", "vr", "self . len ()")] {
             for (f, ctor) in [("ptr_guard", "read"), ("ptr_guard_mut", "write")] {
